@@ -494,29 +494,66 @@ theorem concat_agree (a b : List Nat) : wasmStrConcat a b = tsStrConcat a b := b
   simp only [Nat.add_zero, List.replicate_zero, List.append_nil] at h2
   exact h2
 
-theorem wasmStrEqLoop_eq (a b : List Nat) (h : a.length = b.length) :
-    wasmStrEqLoop a b = decide (a = b) := by
+/-- bytes read with the SAME extension are equal iff the bytes are equal -/
+theorem readByte_inj (s : Bool) (x y : Nat) (hx : x < 256) (hy : y < 256) :
+    readByte s x = readByte s y ↔ x = y := by
+  unfold readByte
+  cases s <;> simp <;> (try split) <;> (try split) <;> omega
+
+/-- the comparison loop decides equality of the byte strings for either extension, as long as both
+operands are read with the same one -/
+theorem strEqLoopWith_same (s : Bool) (a b : List Nat) (h : a.length = b.length)
+    (ha : ∀ x ∈ a, x < 256) (hb : ∀ x ∈ b, x < 256) :
+    strEqLoopWith s s a b = decide (a = b) := by
   induction a generalizing b with
-  | nil => cases b <;> simp_all [wasmStrEqLoop]
+  | nil => cases b <;> simp_all [strEqLoopWith]
   | cons x xs ih =>
     cases b with
     | nil => simp at h
     | cons y ys =>
-      simp only [wasmStrEqLoop, List.cons.injEq]
-      by_cases hxy : x = y
-      · subst hxy; simp [ih ys (by simpa using h)]
-      · simp [hxy]
+      have hxy := readByte_inj s x y (ha x List.mem_cons_self) (hb y List.mem_cons_self)
+      simp only [strEqLoopWith, List.cons.injEq, ne_eq]
+      by_cases e : x = y
+      · subst e
+        simp [ih ys (by simpa using h) (fun z hz => ha z (List.mem_cons_of_mem _ hz))
+          (fun z hz => hb z (List.mem_cons_of_mem _ hz))]
+      · have : ¬ readByte s x = readByte s y := fun hh => e (hxy.mp hh)
+        simp [this, e]
 
-/-- **String `==` agrees** for all pairs of strings (`$__Str$eq` vs JS string equality). -/
-theorem str_eq_agree (same : Bool) (a b : List Nat) (hs : same = true → a = b) :
+/-- mixed extension (one operand `array.get_u`, the other `array.get_s`): a string with a byte
+≥ 0x80 is unequal to itself — the fault class of seed C04f -/
+theorem strEqLoopWith_mixed_counterexample :
+    strEqLoopWith false true [195, 169] [195, 169] = false ∧
+      strEqLoopWith true false [195, 169] [195, 169] = false := by decide
+
+theorem wasmStrEqLoop_eq (a b : List Nat) (h : a.length = b.length)
+    (ha : ∀ x ∈ a, x < 256) (hb : ∀ x ∈ b, x < 256) :
+    wasmStrEqLoop a b = decide (a = b) := by
+  have e : strEqSignedB = strEqSignedA := rfl     -- the code reads both operands the same way
+  unfold wasmStrEqLoop
+  rw [e]
+  exact strEqLoopWith_same _ a b h ha hb
+
+/-- **String `==` agrees** for all pairs of byte strings (`$__Str$eq`, with the reads as the code
+performs them, vs JS string equality; UTF-8 is injective, so equality of the byte strings is
+equality of the strings). -/
+theorem str_eq_agree (same : Bool) (a b : List Nat) (hs : same = true → a = b)
+    (ha : ∀ x ∈ a, x < 256) (hb : ∀ x ∈ b, x < 256) :
     wasmStrEq same a b = tsStrEq a b := by
   unfold wasmStrEq tsStrEq
   by_cases h1 : same = true
   · simp [h1, hs h1, b2i]
   · by_cases hl : a.length = b.length
-    · simp [h1, hl, wasmStrEqLoop_eq a b hl]
+    · simp [h1, hl, wasmStrEqLoop_eq a b hl ha hb]
     · have : a ≠ b := fun h => hl (by rw [h])
       simp [h1, hl, this, b2i]
+
+/-- `==` on strings is an equivalence test: 1 iff the contents are equal -/
+theorem strEq_iff (same : Bool) (a b : List Nat) (hs : same = true → a = b)
+    (ha : ∀ x ∈ a, x < 256) (hb : ∀ x ∈ b, x < 256) : wasmStrEq same a b = 1 ↔ a = b := by
+  rw [str_eq_agree same a b hs ha hb]
+  unfold tsStrEq b2i
+  by_cases e : a = b <;> simp [e]
 
 example : wasmStrConcat [97, 98] [99] = [97, 98, 99] := by decide
 
